@@ -957,46 +957,82 @@ func ruleNLayer(w *World, r *Report, shift *ssa.Function) {
 		return
 	}
 	r.add("STENCIL", fn+" / shift call", w.Pos(c.Pos()), Discharged, "GetShiftingSpatialID(each input ID, dx, dy, dv) with dx,dy in [-hLayers,hLayers], dv in [-vLayers,vLayers], step 1")
-	// origin exclusion and completeness: enumerate zero / non-zero patterns
-	inner := used[0]
+	// origin exclusion and completeness: enumerate zero / non-zero patterns from the innermost of the four loops
+	type lp struct{ hdr, body *ssa.BasicBlock }
+	four := []lp{{il.Header, il.Body}}
 	for _, u := range used {
-		if inner.hdr != u.hdr && reachableFrom(inner.body, map[*ssa.BasicBlock]bool{inner.hdr: true})[u.hdr] {
-			inner = u
+		four = append(four, lp{u.hdr, u.body})
+	}
+	// order the four loops by nesting (outermost first)
+	contains := func(a, b lp) bool {
+		return a.hdr != b.hdr && reachableFrom(a.body, map[*ssa.BasicBlock]bool{a.hdr: true})[b.hdr]
+	}
+	sort.SliceStable(four, func(i, j int) bool { return contains(four[i], four[j]) })
+	for i := 0; i+1 < len(four); i++ {
+		if !contains(four[i], four[i+1]) {
+			r.add("STENCIL", fn+" / box minus origin", pos, Violated, "the three offset loops and the loop over the input IDs are not nested in one another")
+			return
 		}
+	}
+	if !reachableFrom(four[3].body, map[*ssa.BasicBlock]bool{four[3].hdr: true})[c.Block()] {
+		r.add("STENCIL", fn+" / box minus origin", pos, Violated, "the shift is not inside the innermost of the four loops")
+		return
+	}
+	varIdx := func(v ssa.Value) int {
+		for i := 0; i < 3; i++ {
+			if stripConv(v) == ssa.Value(used[i].phi) {
+				return i
+			}
+		}
+		return -1
 	}
 	bad := ""
 	for mask := 0; mask < 8; mask++ {
 		zero := [3]bool{mask&1 != 0, mask&2 != 0, mask&4 != 0}
+		var orZero func(v ssa.Value) (bool, bool)
+		orZero = func(v ssa.Value) (bool, bool) {
+			v = stripConv(v)
+			if i := varIdx(v); i >= 0 {
+				return zero[i], true
+			}
+			if b, ok := v.(*ssa.BinOp); ok && b.Op == token.OR {
+				a, ok1 := orZero(b.X)
+				bb, ok2 := orZero(b.Y)
+				return a && bb, ok1 && ok2
+			}
+			return false, false
+		}
 		orc := func(cond ssa.Value) (bool, bool) {
 			b, ok := resolve(cond).(*ssa.BinOp)
 			if !ok || (b.Op != token.EQL && b.Op != token.NEQ) {
 				return false, false
 			}
-			for i := 0; i < 3; i++ {
-				if stripConv(b.X) == ssa.Value(used[i].phi) {
-					if k, ok := constInt(b.Y); ok && k == 0 {
-						return (b.Op == token.EQL) == zero[i], true
-					}
+			if k, ok := constInt(b.Y); ok && k == 0 {
+				if z, known := orZero(b.X); known {
+					return (b.Op == token.EQL) == z, true
 				}
 			}
 			return false, false
 		}
-		reach := simulate(inner.body, map[*ssa.BasicBlock]bool{inner.hdr: true}, orc)
-		callReach := false
-		for b := range reach {
-			if b == c.Block() {
-				callReach = true
-			}
-		}
 		origin := zero[0] && zero[1] && zero[2]
-		if origin && callReach {
-			bad = "the zero offset (0,0,0) is not skipped: the input voxel itself is returned"
+		if origin {
+			reach := simulate(four[0].body, map[*ssa.BasicBlock]bool{four[0].hdr: true}, orc)
+			if reach[c.Block()] {
+				bad = "the zero offset (0,0,0) is not skipped: the input voxel itself is returned"
+			}
+			continue
 		}
-		if !origin {
-			// every path from the innermost body to its latch passes through the input loop
-			reach2 := simulate(inner.body, map[*ssa.BasicBlock]bool{il.Header: true}, orc)
-			if reach2[inner.hdr] {
-				bad = fmt.Sprintf("a non-zero offset (dx zero=%v, dy zero=%v, dv zero=%v) can be skipped", zero[0], zero[1], zero[2])
+		// every level hands over to the next inner level, the innermost to the shift
+		for i := 0; i < 4; i++ {
+			var next *ssa.BasicBlock
+			if i < 3 {
+				next = four[i+1].hdr
+			} else {
+				next = c.Block()
+			}
+			reach := simulate(four[i].body, map[*ssa.BasicBlock]bool{next: true}, orc)
+			if reach[four[i].hdr] {
+				bad = fmt.Sprintf("a non-zero offset (dx zero=%v, dy zero=%v, dv zero=%v) or an input ID can be skipped", zero[0], zero[1], zero[2])
 			}
 		}
 	}
@@ -1004,11 +1040,5 @@ func ruleNLayer(w *World, r *Report, shift *ssa.Function) {
 		r.add("STENCIL", fn+" / box minus origin", pos, Violated, bad)
 	} else {
 		r.add("STENCIL", fn+" / box minus origin", pos, Discharged, "all 7 non-zero sign patterns reach the shift of every input ID; the origin is skipped")
-	}
-	// every element of the input loop is shifted (no skip)
-	if ok, _ := everyIterationPasses(il, func(x *ssa.Call) bool { return x == c }, nil); !ok {
-		r.add("STENCIL", fn+" / every input ID", pos, Violated, "an input ID can be skipped for some offset")
-	} else {
-		r.add("STENCIL", fn+" / every input ID", pos, Discharged, "every input ID is shifted by every offset")
 	}
 }
